@@ -1667,3 +1667,45 @@ example : tcpForwarder ⟨fun h => h != [0xff], fun _ _ => .ok [⟨.v4, 2, 80⟩
 
 end ServerForward
 end Penguin.C01
+
+namespace Penguin.C01
+
+/-! ### From the text on the command line to the address the server connects to: the chain for a fixed TCP remote -/
+section Chain
+
+/-- The octets of a host text (what `rhost.as_bytes()` hands to `request_tcp_channel`). -/
+def hostOctets (h : RemoteSpec.Str) : Bytes := (String.ofList h).toUTF8.toList
+
+/-- One statement through four models. For every remote text that parses to a fixed TCP remote (listener `lh:lp`,
+    target `rh:rp`): (1) `handle_remote` starts a TCP forwarder on exactly that listener for exactly that target
+    (`Model/Dispatch`); (2) every connection it accepts requests a tunnel for exactly `(rh, rp)`, whatever the
+    environment answers (`Model/FixedTarget`); (3) on the server, a forwarder given a stream with that target asks the
+    resolver about exactly `(rh, rp)` and connects only to one of its answers (`Model/ServerForward`).  The link between
+    (2) and (3) — the stream the server accepts carries the host and port of the request — is C07's
+    (`stream_target_never_changes`, the `Connect` frame of C09); what `rh` is in terms of the text is
+    `remote_target_spec` above. -/
+theorem fixed_tcp_remote_reaches_the_written_target (o : RemoteSpec.Oracle) (s lh rh : RemoteSpec.Str) (lp rp : Nat)
+    (h : RemoteSpec.parse o s = .ok ⟨.inet lh lp, .inet rh rp, .tcp⟩) :
+    Dispatch.dispatch ⟨.inet lh lp, .inet rh rp, .tcp⟩ = .tcpForward (.tcp lh lp) rh rp ∧
+    Dispatch.dispatch ⟨.inet lh lp, .inet rh rp, .tcp⟩ ≠ .unreachable ∧
+    (∀ (cenv : FixedTarget.TcpEnv) hh pp,
+        FixedTarget.Event.requested hh pp ∈ (FixedTarget.tcpSession (hostOctets rh) rp cenv).events →
+        hh = hostOctets rh ∧ pp = rp) ∧
+    (∀ (senv : ServerForward.Env) a,
+        ServerForward.Event.connected a ∈ ServerForward.tcpForwarder senv (hostOctets rh) rp →
+        ∃ as, senv.resolve (hostOctets rh) rp = .ok as ∧ a ∈ as) := by
+  refine ⟨rfl, dispatch_never_unreachable_on_parsed o s _ h, ?_, ?_⟩
+  · intro cenv hh pp hreq
+    exact (tcp_entry_requests_exactly_the_configured_target (hostOctets rh) rp cenv).1 hh pp hreq
+  · intro senv a ha
+    obtain ⟨as, h1, h2, _⟩ :=
+      (server_connects_only_to_a_resolved_address_of_the_stream_target senv (hostOctets rh) rp).2.1 a (Or.inr (Or.inl ha))
+    exact ⟨as, h1, h2⟩
+
+/-- Non-vacuity: `8080:example.com:80` is such a text. -/
+example : RemoteSpec.parse plainOracle "8080:example.com:80".toList =
+    .ok ⟨.inet "0.0.0.0".toList 8080, .inet "example.com".toList 80, .tcp⟩ := by decide
+
+end Chain
+
+end Penguin.C01
